@@ -5,10 +5,10 @@ import probes
 FAMILIES = [
     ("MC_C01", ["ops", "control", "functions", "classes", "errors"], "MC_C01.cfg"),
     ("MC_C04", ["operands", "receivers"], "MC_Probe.cfg"),
-    ("MC_C05", ["call", "method", "ctor", "return", "init", "tuple"], "MC_Probe.cfg"),
+    ("MC_C05", ["call", "method", "ctor", "return", "init", "tuple", "result"], "MC_Probe.cfg"),
     ("MC_C06", ["init", "assign", "field", "arg", "return", "use"], "MC_Probe.cfg"),
     ("MC_C07", ["var", "member", "shadow"], "MC_Probe.cfg"),
-    ("MC_C08", ["raise", "position", "declare"], "MC_Probe.cfg"),
+    ("MC_C08", ["raise", "position", "declare", "multi"], "MC_Probe.cfg"),
     ("MC_C09", ["var", "field", "global"], "MC_C09.cfg"),
 ]
 
